@@ -153,6 +153,46 @@ SEEDS.update({
            "a record of queue b straddling a file boundary whose tail is a well-formed entry for another queue (crafted payload), the first file GC'ed, restart"),
 })
 
+# ---- third round (agents were asked for changes a randomized / model-based generator would be unlikely to hit)
+SEEDS.update({
+ "C01-6": ("FrameReader resets cursor / block_corrupted BEFORE asking for the next block (same change as C07-1)",
+           "the log ends with 0..6 bytes left in the NEWEST file, clean restart, any write, second clean restart"),
+ "C01-7": ("RollingReader::next_block increments block_id before read_block instead of only on success",
+           "the log ends with exactly 1..6 bytes left in the newest file, clean restart, writes, second clean restart: the first block of the new file is shifted and dropped"),
+ "C02-6": ("get_frame_header advances the cursor past the 7 header bytes before validating them",
+           "the cursor is in the LAST block of the newest file, a crash inside the first 1..6 bytes of a frame header, recovery, one more operation, second restart"),
+ "C02-7": ("delete_queue removes the queue from memory after GC + persist (same change as C01-2 / C18-2)",
+           "delete of an EMPTY queue while the oldest file is unreferenced and >= 2 files exist"),
+ "C03-6": ("RecordReader::go_next clears the record buffer at the top of the call (same mechanism as C02-1 / C04-3)",
+           "a multi-frame record torn by a crash, recovery, one more PERSISTED operation, second crash / reopen: that operation is lost"),
+ "C03-7": ("the repair of a too-short newest file (D2 fix) runs only when it is the ONLY file",
+           ">= 2 files, a crash exactly between create_new and set_len of a roll-over, recovery, more persisted operations, second restart"),
+ "C04-6": ("the GC at the end of open() no longer re-records the positions of empty queues (same change as C02-2)",
+           "a head file unreferenced at open although no live pass collected it (GC pass straddling a file end, or a roll-over caused only by create_queue calls), then TWO clean restarts"),
+ "C04-7": ("the repair of a too-short newest file runs only when it is the only file (same change as C03-7)",
+           "a kill exactly between create_new and set_len during a roll-over, recovery, one more acknowledged operation, second restart"),
+ "C08-6": ("empty frames (len 0) are accepted without CRC verification",
+           "a record of >= 2 frames and a whole block overwritten with the 7-byte pattern 00 00 00 00 00 00 03 repeated, with item-aligned records so that the glued ends parse"),
+ "C08-7": ("a First/Full frame no longer restarts an unterminated record (go_next rewritten as a state machine)",
+           "zero-fill starting exactly on the Last frame header of a multi-frame record, a successful open, an append whose serialized size equals the lost tail exactly, reopen"),
+ "C09-6": ("end-of-block padding is consumed together with the preceding frame, except after a checksum mismatch",
+           "the last frame of a block ends exactly 1..6 bytes before the block boundary AND payload/CRC damage hits that frame: open panics"),
+ "C09-7": ("an EMPTY frame with a bad checksum is treated as the torn end of the log",
+           "an entry beginning with exactly 7 bytes left in a block (empty First frame), damage on one of its 4 checksum bytes, at least one later entry"),
+ "C10-5": ("filename_to_position uses parse::<u64>().expect(..) after the digit check",
+           "a stray file named wal- + 20 digits whose value exceeds u64::MAX"),
+ "C10-6": ("deserialize asserts that control entries (truncate / position / delete) carry no payload",
+           "a control entry straddling a block boundary (cut inside its queue name) whose next block is replaced by an intact block starting with a Middle/Last frame"),
+ "C12-6": ("record buffer cleared once per go_next call (same mechanism as C02-1)",
+           "a crash after the First frame of a multi-block batch, restart, an entry of exactly the missing length, second restart: part of the crashed batch surfaces"),
+ "C12-7": ("read_frame loops to the next block on an unparseable header instead of reporting Corruption (same mechanism as C08-2)",
+           "a batch of >= 3 blocks of item-aligned records (32 749 B) and the type byte of a Middle frame damaged to an invalid value"),
+ "C18-6": ("end of log recognised by the first 4 header bytes being zero (a frame whose CRC32 is 0 reads as end of log)",
+           "a payload crafted so that its frame CRC32 is exactly 0, then operations on other queues, then a restart"),
+ "C18-7": ("a First/Full frame arriving while a record is being assembled is reported as Corruption (and thereby dropped)",
+           "a record of queue a torn between its two frames by a crash, recovery, an append to ANOTHER queue as the first write, second restart: that append is lost"),
+})
+
 def parse_matrix(name):
     path = f"/tmp/seedmatrix_final/{name}.log"
     if not os.path.exists(path):
